@@ -290,6 +290,21 @@ def oracle_c02(rec):
     vals = []   # (arg, val, kind)
     running = []
     prev_best_fit = None
+    stale = None
+    if (rec['cfg'].get('prior') or {}).get('same_space') and rec.get('init') is not None:
+        # second task on the same space, same objective: the best agent carried over counts as evaluated in the earlier
+        # task — provided it is truthful (the objective, called again at that position, returns that value)
+        b0 = rec['init']['best']
+        try:
+            v0 = fnum(rec['of'](np.array(b0['pos'], copy=True)))
+        except Exception:
+            v0 = None
+        if v0 is not None and v0 == fnum(b0['fit']):
+            vals.append((np.array(b0['pos'], copy=True), v0, 'inherited'))
+            stats['inherited_best'] = 1
+        else:
+            issues.append(dict(what='inherited-best-untruthful', ev='init', best_fit=fnum(b0['fit']), objective=v0))
+            stale = fnum(b0['fit'])
     for i, e in enumerate(rec['events']):
         if e['t'] == 'eval':
             vals.append((e['arg'], fnum(e['val']), e.get('_kind')))
@@ -299,7 +314,7 @@ def oracle_c02(rec):
             mn = min(v for _, v, _ in vals)
             bf = fnum(b['fit'])
             if bf != mn:
-                issues.append(dict(what='best-not-min', ev=i, best_fit=bf, min=mn))
+                issues.append(dict(what='best-not-min', ev=i, best_fit=bf, min=mn, stale_inherited=(stale is not None and bf == stale)))
             elif not any(v == bf and a.shape == b['pos'].shape and np.array_equal(a, b['pos']) for a, v, _ in vals):
                 issues.append(dict(what='best-pos-not-evaluated', ev=i, best=b['pos'].tolist(), best_fit=bf))
             if sum(1 for _, v, _ in vals if v == mn) > 1:
@@ -318,7 +333,8 @@ def oracle_c02(rec):
         b = rec['final']['best']
         mn = min(v for _, v, _ in vals)
         if fnum(b['fit']) != mn:
-            issues.append(dict(what='best-not-min', ev='final', best_fit=fnum(b['fit']), min=mn))
+            issues.append(dict(what='best-not-min', ev='final', best_fit=fnum(b['fit']), min=mn,
+                               stale_inherited=(stale is not None and fnum(b['fit']) == stale)))
         h = rec['history']
         bf = [fnum(r[1]) for r in getattr(h, 'best_agent', [])]
         if any(bf[k + 1] > bf[k] for k in range(len(bf) - 1)):
@@ -519,6 +535,8 @@ def oracle_c07(rec):
             issues.append(dict(what='shape', ev=i, shapes=[list(s) for s in lv['shapes']], expected=list(shape)))
         if lv['alias']:
             issues.append(dict(what='shared-storage', ev=i, pairs=lv['alias']))
+        if lv.get('fit_alias'):
+            issues.append(dict(what='fitness-shares-storage', ev=i, pairs=lv['fit_alias']))
     refs = None
     for e in rec['events']:
         if e['t'] == 'hook':
